@@ -440,6 +440,7 @@ fn enc_finish_slice() {
 // with an arbitrary length over an 8-byte allocation (no byte beyond index 4 is ever touched: CBMC's pointer checks are on and
 // would report it). Decides the exact limit comparison and the > 4 GiB arm for all usize lengths and all limits.
 // ------------------------------------------------------------------------------------------------
+#[cfg(all(feature = "gzip", feature = "deflate", feature = "zstd"))]
 #[kani::proof]
 #[kani::unwind(8)]
 #[kani::stub(alloc::fmt::format, fmt_stub)]
